@@ -181,7 +181,9 @@ func ParseStreamCallback variant walk
   bind callback = utils.WalkNodesInStream$1
   props C08 C09 C10 C17
   requires @reporter RepInv(captured(callback, r)) && (captured(callback, filter) == nil || *captured(callback, filter) != nil)
-  modifies *
+  // the frame is the callback's: besides objects the parse allocates itself only the reporters' state changes
+  modifies captured(callback, t), captured(callback, ok), captured(callback, ln)
+  modifies heap(shared.TreeNode), maps(string, *shared.TreeNode), heap(balance.balanceSingleReporter), arrays(float64), maps(string, shared.AccValues), maps(string, bool), maps(string, float64)
   modifies ghost(cbLen, cbErr, cbNode, cbStop, cbRet, cbLineNo, cbLine, cbHeader, cbElems, cbNElems, scRd, scPos, privLo, evOf, accKey, accP, accN, accH, bufSticky, sinkFailed, sinkPend, prLen, prSink, prArg, prArgs, tnodes, tdepth, tmax, tmapOf)
   let R := captured(callback, r)
   let B := RepBuf(captured(callback, r))
@@ -200,6 +202,84 @@ func ParseStreamCallback variant walk
     invariant @own node != nil ==> arr(node.Elements) >= privLo && (node.Metadata != nil ==> ref(node.Metadata) >= privLo && arr(*node.Metadata) >= privLo)
     invariant @book-below RepBookBelow(R, privLo)
   }
+
+// ---------------------------------------------------------------------------------------------
+// ParseStreamCallback specialised by the callback of csv.CSVDatabase: the stop-on-error results plus the
+// summary of everything written through the csv writer (C17)
+// ---------------------------------------------------------------------------------------------
+func ParseStreamCallback variant csvdb
+  bind callback = csv.CSVDatabase$1
+  props C08 C09 C10 C17
+  requires @writer captured(callback, r).output != nil
+  modifies ghost(cbLen, cbErr, cbNode, cbStop, cbRet, cbLineNo, cbLine, cbHeader, cbElems, cbNElems, scRd, scPos, privLo, evOf, bufSticky, sinkFailed, sinkPend)
+  let W := captured(callback, r).output
+  ensures @fails-on-malformed [C09] result == nil ==> (forall i int :: {RdLine(rd, i)} 0 <= i && i < RdN(rd) ==> !Malformed(rd, i, cc))
+  ensures @fails-on-unreadable [C10] result == nil ==> !RdFailed(rd)
+  ensures @sink [C17] BufStep(W) && captured(callback, r).output == W
+  loop 1 {
+    invariant @clean forall i int :: {RdLine(rd, i)} 0 <= i && i < lineNumber ==> !Malformed(rd, i, cc)
+    invariant @noerr forall j int :: {cbErr[j]} old(cbLen) <= j && j < cbLen ==> cbErr[j] == nil
+    invariant @sink BufStep(W) && captured(callback, r).output == W
+    invariant @own node != nil ==> arr(node.Elements) >= privLo && (node.Metadata != nil ==> ref(node.Metadata) >= privLo && arr(*node.Metadata) >= privLo)
+  }
+
+// ---------------------------------------------------------------------------------------------
+// ParseStreamCallback / ParseFileCallback specialised by the log callback of stats.Stats: the stop-on-error results with
+// the callback's precise frame (it only updates the counters and dates of stats.Stats)
+// ---------------------------------------------------------------------------------------------
+func ParseStreamCallback variant stats1
+  bind callback = stats.Stats$1
+  props C08 C09 C10
+  modifies captured(callback, lastLogDate), captured(callback, err), captured(callback, firstLogDate), captured(callback, countLog)
+  modifies ghost(cbLen, cbErr, cbNode, cbStop, cbRet, cbLineNo, cbLine, cbHeader, cbElems, cbNElems, scRd, scPos, privLo, evOf)
+  ensures @fails-on-malformed [C09] result == nil ==> (forall i int :: {RdLine(rd, i)} 0 <= i && i < RdN(rd) ==> !Malformed(rd, i, cc))
+  ensures @fails-on-unreadable [C10] result == nil ==> !RdFailed(rd)
+  ensures @error-or-all [C10] result == nil ==> (forall j int :: {cbStop[j]} old(cbLen) <= j && j < cbLen ==> !cbStop[j] && cbErr[j] == nil)
+  loop 1 {
+    invariant @clean forall i int :: {RdLine(rd, i)} 0 <= i && i < lineNumber ==> !Malformed(rd, i, cc)
+    invariant @noerr forall j int :: {cbErr[j]} old(cbLen) <= j && j < cbLen ==> cbErr[j] == nil
+    invariant @own node != nil ==> arr(node.Elements) >= privLo && (node.Metadata != nil ==> ref(node.Metadata) >= privLo && arr(*node.Metadata) >= privLo)
+  }
+
+func ParseFileCallback variant stats1
+  bind callback = stats.Stats$1
+  calluse ParseStreamCallback#1 stats1
+  props C08 C09 C10
+  modifies captured(callback, lastLogDate), captured(callback, err), captured(callback, firstLogDate), captured(callback, countLog)
+  modifies ghost(cbLen, cbErr, cbNode, cbStop, cbRet, cbLineNo, cbLine, cbHeader, cbElems, cbNElems, scRd, scPos, privLo, evOf, lastOpen)
+  let cc := c.CommentChar
+  ensures @fails-on-unreadable [C10] result == nil ==> FileNameOf(lastOpen) == fileName && !RdFailed(lastOpen)
+  ensures @fails-on-malformed [C09] result == nil ==> (forall i int :: {RdLine(lastOpen, i)} 0 <= i && i < RdN(lastOpen) ==> !Malformed(lastOpen, i, cc))
+  ensures @error-or-all [C10] result == nil ==> (forall j int :: {cbStop[j]} old(cbLen) <= j && j < cbLen ==> !cbStop[j] && cbErr[j] == nil)
+
+// ---------------------------------------------------------------------------------------------
+// ParseStreamCallback / ParseFileCallback specialised by the book callback of stats.Stats: the stop-on-error results with
+// the callback's precise frame (it only updates the counters and dates of stats.Stats)
+// ---------------------------------------------------------------------------------------------
+func ParseStreamCallback variant stats2
+  bind callback = stats.Stats$2
+  props C08 C09 C10
+  modifies captured(callback, countDb)
+  modifies ghost(cbLen, cbErr, cbNode, cbStop, cbRet, cbLineNo, cbLine, cbHeader, cbElems, cbNElems, scRd, scPos, privLo, evOf)
+  ensures @fails-on-malformed [C09] result == nil ==> (forall i int :: {RdLine(rd, i)} 0 <= i && i < RdN(rd) ==> !Malformed(rd, i, cc))
+  ensures @fails-on-unreadable [C10] result == nil ==> !RdFailed(rd)
+  ensures @error-or-all [C10] result == nil ==> (forall j int :: {cbStop[j]} old(cbLen) <= j && j < cbLen ==> !cbStop[j] && cbErr[j] == nil)
+  loop 1 {
+    invariant @clean forall i int :: {RdLine(rd, i)} 0 <= i && i < lineNumber ==> !Malformed(rd, i, cc)
+    invariant @noerr forall j int :: {cbErr[j]} old(cbLen) <= j && j < cbLen ==> cbErr[j] == nil
+    invariant @own node != nil ==> arr(node.Elements) >= privLo && (node.Metadata != nil ==> ref(node.Metadata) >= privLo && arr(*node.Metadata) >= privLo)
+  }
+
+func ParseFileCallback variant stats2
+  bind callback = stats.Stats$2
+  calluse ParseStreamCallback#1 stats2
+  props C08 C09 C10
+  modifies captured(callback, countDb)
+  modifies ghost(cbLen, cbErr, cbNode, cbStop, cbRet, cbLineNo, cbLine, cbHeader, cbElems, cbNElems, scRd, scPos, privLo, evOf, lastOpen)
+  let cc := c.CommentChar
+  ensures @fails-on-unreadable [C10] result == nil ==> FileNameOf(lastOpen) == fileName && !RdFailed(lastOpen)
+  ensures @fails-on-malformed [C09] result == nil ==> (forall i int :: {RdLine(lastOpen, i)} 0 <= i && i < RdN(lastOpen) ==> !Malformed(lastOpen, i, cc))
+  ensures @error-or-all [C10] result == nil ==> (forall j int :: {cbStop[j]} old(cbLen) <= j && j < cbLen ==> !cbStop[j] && cbErr[j] == nil)
 
 // ---------------------------------------------------------------------------------------------
 // ParseStreamCallback specialised by lint's callback: every error event is printed exactly once, in order
